@@ -1,6 +1,6 @@
 (** Correspondence and property oracles for the matcher (C01, C02, C03):
     what the generated cases_match_*.v files evaluate. *)
-From Sheens Require Export Corr.Base Spec.Contain.
+From Sheens Require Export Corr.Base Spec.Contain Spec.Embed.
 
 Inductive gores : Type :=
 | GoOk (r : list bindings)
@@ -56,3 +56,43 @@ Definition c01_nontrivial (cases : list mcase) : nat :=
                        | GoOk (_ :: _) => match pvars (mc_p c) with [] => false | _ => true end
                        | _ => false
                        end) cases.
+
+(** * C02 *)
+Definition c02_applicable (c : mcase) : bool :=
+  match mc_planted c, mc_bs c with
+  | Some sg, [] => c02_pre (mc_p c) (mc_f c) sg && embeds sg (mc_p c) (mc_f c)
+  | _, _ => false
+  end.
+
+Definition c02_linear_applicable (c : mcase) : bool :=
+  match mc_bs c with
+  | [] => supported (mc_p c) && all_plain (mc_p c) && linear (mc_p c) && wf_json (mc_p c)
+          && wf_json (mc_f c) && var_free (mc_f c)
+          && arrays_are_sets (mc_p c) && arrays_are_sets (mc_f c)
+  | _ => false
+  end.
+
+Definition c02_case_ok (c : mcase) : bool :=
+  (if c02_applicable c then
+     match mc_planted c, mc_go c with
+     | Some sg, GoOk rs => c02_found sg rs
+     | _, _ => false            (* an error or a crash where a match must be found *)
+     end
+   else true)
+  &&
+  (if c02_linear_applicable c then
+     match mc_go c with
+     | GoOk rs => forallb (c02_result_is_embedding (mc_p c) (mc_f c)) rs
+     | _ => false               (* the supported fragment never errs *)
+     end
+   else true).
+
+Definition c02_violations (cases : list mcase) : list nat :=
+  bad_indexes (fun c => negb (c02_case_ok c)) 0 cases.
+
+Definition c02_nontrivial (cases : list mcase) : nat :=
+  count_true (fun c => c02_applicable c &&
+                       match mc_planted c with Some (_ :: _) => true | _ => false end) cases.
+Definition c02_linear_count (cases : list mcase) : nat :=
+  count_true (fun c => c02_linear_applicable c &&
+                       match mc_go c with GoOk (_ :: _) => true | _ => false end) cases.
